@@ -678,7 +678,7 @@ func (c *fnCtx) lenAtom(v ssa.Value) Lin {
 	a := "len(" + c.id(v) + ")"
 	c.addDef(leq(linConst(0), linAtom(a), "len ≥ 0"))
 	if c.e.checkWrap {
-		c.addDef(leq(linAtom(a), linConst(lenCap), "assumption: no buffer longer than 2^40"))
+		c.addDef(leq(linAtom(a), linConst(c.e.lenCap()), "assumption: no buffer longer than the cap"))
 	}
 	return linAtom(a)
 }
